@@ -10,7 +10,7 @@
    window_is_lastn and check_schedule_sound.  What stays outside Coq: that rex's own Python to_graph/apply_window/supergraph code establishes same_graph for EVERY record
    (it is validated, not proved), jit/XLA, floats off the lattice. *)
 From Coq Require Import List Arith ZArith Bool.
-From Rex Require Import KahnL AsyncModel2 AsyncStable ConflInv RexDet AsyncLaws AsyncLaws2 AsyncLaws3 AsyncLaws4 CompiledModel WindowSpec WindowPush RunnerSym CheckSym Dataflow Replay AsyncDataflow ReplayAsync ExportWindows ExportReplay.
+From Rex Require Import KahnL AsyncModel2 AsyncStable ConflInv RexDet AsyncLaws AsyncLaws2 AsyncLaws3 AsyncLaws4 CompiledModel WindowSpec WindowPush RunnerSym CheckSym Dataflow Replay AsyncDataflow ReplayAsync ExportWindows ExportReplay BufferSufficient Capstone.
 Open Scope Z_scope.
 
 (* uniqueness of solutions of the dataflow equations: two traces over the same windowed graph, step function and initial values agree wherever both are defined *)
@@ -119,3 +119,22 @@ Print Assumptions C01_export_instance.
 Theorem C01_export_defined : T_a exG exS 1%nat 2 = Some (1943, 17693) /\ Tc ex_I (2 :: 1 :: nil) 0 3 1%nat 2 = Some (1943, 17693) /\ wins_c ex_I (2 :: 1 :: nil) 0 3 1 2 = (0%nat, (1, 12, 13) :: (2, 22, 23) :: nil) :: nil.
 Proof. exact @ex_export_defined. Qed.
 Print Assumptions C01_export_defined.
+(* CAPSTONE (C01 + C07 + C08 in one closed statement on the models): for every asynchronous system G, every recorded prefix s (any thread schedule), EVERY schedule (slots) of the exported graph that passes the three decidable schedule checks check_schedule / extra_ok / sched_ok - this is what the external supergraph partitioner must deliver and what the extracted checkers validate on rex's Timings per instance - and ring buffers of at least the computed sizes buffer_need (= Timings.get_buffer_sizes), a compiled rollout from step 0 over any horizon n <= nparts reproduces the recorded execution: same state before and same output on every vertex both executed *)
+Theorem C01_compiled_replay_reproduces_recording : forall (G : cfg) (s : state) (slots : list slot) (ngen nparts sup : nat) (sizes : list Z) (n : nat), let I := export G s slots ngen nparts sup in reach G s -> check_schedule I = true -> extra_ok I = true -> sched_ok I 0 n = true -> (forall c : nat, (c < length (i_conns I))%nat -> buffer_need I c <= size_of sizes (k_out (conn I c))) -> (n <= nparts)%nat -> forall (m : nat) (k : Z) (x1 x2 : Z * Z), T_a G s m k = Some x1 -> Tc I sizes 0 n m k = Some x2 -> x1 = x2.
+Proof. exact @compiled_replay_reproduces_recording. Qed.
+Print Assumptions C01_compiled_replay_reproduces_recording.
+
+(* under a valid schedule and sufficient rings the certified checker check_replay always accepts (no vertex executed twice; every read returns the scheduled producer's payload) *)
+Theorem C01_valid_schedule_check_replay : forall (I : inst) (sizes : list Z) (n : nat), check_schedule I = true -> extra_ok I = true -> (forall c : nat, (c < length (i_conns I))%nat -> buffer_need I c <= size_of sizes (k_out (conn I c))) -> (n <= i_nparts I)%nat -> check_replay I sizes 0 n = true.
+Proof. exact @valid_schedule_check_replay. Qed.
+Print Assumptions C01_valid_schedule_check_replay.
+
+(* non-vacuity *)
+Theorem C01_capstone_hypotheses_satisfiable : check_schedule ex_I = true /\ extra_ok ex_I = true /\ sched_ok ex_I 0 3 = true /\ buffer_need ex_I 0 = 2 /\ size_of (2 :: 1 :: nil) (k_out (conn ex_I 0)) = 2 /\ length (i_conns ex_I) = 1%nat.
+Proof. exact @ex_capstone_hyps. Qed.
+Print Assumptions C01_capstone_hypotheses_satisfiable.
+
+(* the capstone applied to the exported two-node execution *)
+Theorem C01_capstone_instance : forall x1 x2 : Z * Z, T_a exG exS 1%nat 2 = Some x1 -> Tc ex_I (2 :: 1 :: nil) 0 3 1%nat 2 = Some x2 -> x1 = x2.
+Proof. exact @ex_capstone. Qed.
+Print Assumptions C01_capstone_instance.
